@@ -13,7 +13,10 @@ then a BARRIER_REPLY with a wrong xid) and adds the environment faults that make
 connection up mid-handshake (no nexus for the datapath, n-th send fails with EPIPE).  Sockets are
 faithful where the loops can tell: after shutdown(RD/RDWR) a socket is readable and recv() gives b'',
 a closed socket has fileno() -1 and a select set containing one makes select raise ValueError (the
-select hub dies: counted as loop death).
+select hub dies: counted as loop death).  A third group follows the corruptions that make a receiver
+give a connection up (foreign version, length < 8, unknown type; and the unmodified message) with a
+peer that has RESET the connection right behind those bytes: shutdown() raises ENOTCONN, recv() raises
+ECONNRESET once the queued bytes are read, send() fails, close() raises - same containment oracle.
 
 Oracle (DESIGN.md C10): (1) every step into the generator returns within a line budget; (2) the
 generator stays alive and keeps selecting on the siblings; (3) each sibling is delivered exactly its
@@ -130,10 +133,11 @@ class RecLog (object):
 
 class Piece (object):
   """One scripted recv chunk.  A glued chunk keeps its constituent pieces in `parts`."""
-  __slots__ = ("data", "valid", "label", "fn", "eof", "parts")
+  __slots__ = ("data", "valid", "label", "fn", "eof", "parts", "fault")
   def __init__ (self, data=None, valid=False, label="", fn=None, eof=False, parts=None):
     self.data = data; self.valid = valid; self.label = label; self.fn = fn; self.eof = eof
     self.parts = parts
+    self.fault = None          # name in PEER_FAULTS: the peer resets the connection right behind this chunk
 
 
 def glued (*ps):
@@ -208,6 +212,7 @@ class World (object):
     if p.fn is not None: p.data = p.fn(self, i)
     s.rx.append(bytes(p.data))
     self.pushed[i].append(p)
+    if p.fault: s.faults = PEER_FAULTS[p.fault]
 
   def run_scripts (self, scripts):
     scripts = [list(s) for s in scripts]
@@ -244,16 +249,41 @@ class CSock (env.ScriptSock):
   socket is readable and recv() returns b'' (how the unchanged loop notices a connection that
   Connection.disconnect() gave up on and removes it)."""
   rd_shut = False
+  faults = ()          # scripted answers of a connection the peer has RESET after its last bytes (see PEER_FAULTS)
   def fileno (self): return -1 if self.closed else 77
   def shutdown (self, how):
+    if "shutdown" in self.faults and not self.closed:
+      import socket, errno
+      raise socket.error(errno.ENOTCONN, "Transport endpoint is not connected")
     env.ScriptSock.shutdown(self, how)
     if how in (0, 2): self.rd_shut = True
   def recv (self, n, flags=0):
+    import socket, errno
     if self.closed:
-      import socket, errno
       raise socket.error(errno.EBADF, "recv on closed socket")
     if self.rd_shut: return b""
+    if "recv" in self.faults and not self.rx:           # queued data is still handed out first (Linux)
+      raise socket.error(errno.ECONNRESET, "Connection reset by peer")
     return env.ScriptSock.recv(self, n, flags)
+  def send (self, data, flags=0):
+    if "send" in self.faults and not (self.closed or self.shut):
+      import socket, errno
+      self.sends.append((len(data), "reset"))
+      raise socket.error(errno.ECONNRESET, "Connection reset by peer")
+    return env.ScriptSock.send(self, data, flags)
+  def close (self):
+    env.ScriptSock.close(self)                           # the descriptor is gone in any case
+    if "close" in self.faults:
+      import socket, errno
+      self.faults = tuple(f for f in self.faults if f != "close")
+      raise socket.error(errno.ECONNRESET, "Connection reset by peer")
+  def readable (self):
+    return bool(self.rx or self.eof or self.rd_shut or ("recv" in self.faults and not self.closed))
+
+
+# what the operations on a socket answer once the peer has reset the connection behind its last bytes
+PEER_FAULTS = {"reset": ("shutdown", "recv", "send"), "shutdown-enotconn": ("shutdown",), "recv-reset": ("recv",),
+               "close-raises": ("close",), "reset+close-raises": ("shutdown", "recv", "send", "close")}
 
 
 class FakeListener (object):
@@ -344,7 +374,7 @@ class CtlWorld (World):
         if self.lst.q: r.append(x)
       else:
         s = x.sock
-        if s.rx or s.eof or s.rd_shut: r.append(x)
+        if s.readable(): r.append(x)
     return r, []
 
   def select_set (self):
@@ -361,6 +391,7 @@ class CtlWorld (World):
       arb.addListener(ofm.ConnectionIn, pick)
     elif envf.startswith("epipe"):
       self.socks[HOSTILE].send_script = ["all"] * int(envf[5:]) + ["epipe"]
+    elif envf in PEER_FAULTS: pass                        # takes effect behind the corrupted chunk (see build)
     else: raise ValueError(envf)
 
   def is_closed (self, i):
@@ -428,7 +459,7 @@ class SwWorld (World):
         if x.pings: r.append(x)
       else:
         s = x.socket
-        if s.rx or s.eof or s.rd_shut: r.append(x)
+        if s.readable(): r.append(x)
     return r, list(self.sel._args[1])
 
   def select_set (self):
@@ -438,6 +469,7 @@ class SwWorld (World):
     if not envf: return
     if envf.startswith("epipe"):
       self.socks[HOSTILE].send_script = ["all"] * int(envf[5:]) + ["epipe"]
+    elif envf in PEER_FAULTS: pass                        # takes effect behind the corrupted chunk (see build)
     else: raise ValueError(envf)
 
   def is_closed (self, i):
@@ -545,6 +577,11 @@ def build (case, insts):
   else:
     order = dict(before=[M, V1, V2], between=[V1, M, V2], after=[V1, V2, M])[pos]
     chunks = hs + ([glued(*order)] if glue else order)
+  if case.get("env") in PEER_FAULTS:
+    # the peer resets the connection right behind the chunk with the corrupted message: nothing follows
+    k = next(k for k, c in enumerate(chunks) if c.label.startswith("M") or (c.parts and any(p.label.startswith("M") for p in c.parts)))
+    chunks = chunks[:k+1]
+    chunks[k].fault = case["env"]
   n = len(chunks) + 2
   scripts = []
   for i in range(3):
@@ -563,13 +600,19 @@ def build (case, insts):
 # one case: execute + judge
 # ---------------------------------------------------------------------------------------------
 def field_class (case, inst):
+  fc = _field_class(case, inst)
+  if case.get("env") in PEER_FAULTS: fc += "+peer-" + case["env"]
+  return fc
+
+
+def _field_class (case, inst):
   f, v = case["field"], case["val"]
   n = len(inst.data)
   if f == "hdr.length":
     return "hdr.length<8" if v < 8 else ("hdr.length=short" if v < n else "hdr.length=long")
   if f == "type": return "type"
   if f == "xid": return "xid"
-  if f == "none" and case.get("env"): return "env=" + case["env"].rstrip("0123456789")
+  if f == "none" and case.get("env") and case["env"] not in PEER_FAULTS: return "env=" + case["env"].rstrip("0123456789")
   if f == "version": return "version"
   if f == "ver+len": return "version+hdr.length=long"
   if f.startswith("emb:"):
@@ -669,7 +712,8 @@ def judge (case, insts, w, differential=True):
     if w.dead == "select": subj = [via]
     elif via == "read>unpack_new": subj = ["via=" + via]
     elif via: subj = ["via=" + via, site]
-    else: subj = [mc, fc, site]
+    elif site: subj = ["at=" + site]          # the frame the exception came from names the hole, whatever input got there
+    else: subj = [mc, fc]
     if w.dead == "select":
       v("2", "loop-died", subj, "%s left a closed socket (fileno() == -1) in the set it selects on: select() raises ValueError, "
         "the select hub dies and no connection is served any more" % lname)
@@ -730,7 +774,11 @@ def judge (case, insts, w, differential=True):
       if "e" in acted.get(k, ()): continue
       if xid_of(u) == x or (len(data) >= 8 and u.startswith(data[:8])):
         acted.setdefault(k, set()).add("e"); break
-  if any(d["closed"] for d in D):
+  # a peer that has reset the connection makes every send fail: an error reply cannot be observed, and the
+  # controller marks the connection disconnected on the failed send while it still works off messages that had
+  # arrived before - neither is a reaction to malformed input, the statement is silent there
+  unsendable = "send" in PEER_FAULTS.get(case.get("env") or "", ())
+  if any(d["closed"] for d in D) and not unsendable:
     v("5", "delivered-after-close", [mc, fc], "a message was delivered from the hostile connection after it had been closed")
   last = max(acted) if acted else -1
   horizon = len(units) if not closed else last + 1      # later units are excused by the close
@@ -748,7 +796,7 @@ def judge (case, insts, w, differential=True):
       if "d" in a or "x" in a:
         cl = ",".join(sorted(set(D[di]["cls"] for di, jj in inexact if jj == k))) or "a message"
         v("4", "malformed-delivered", [tname(u[1]), reason], "malformed unit #%d (declared type %d, length %d: %s) was delivered as %s" % (k, u[1], len(u), reason, cl))
-      elif "e" not in a:
+      elif "e" not in a and not unsendable:
         v("4", "malformed-ignored", [tname(u[1]), reason], "malformed unit #%d (declared type %d, length %d: %s) was neither answered with an error nor did it close the connection" % (k, u[1], len(u), reason))
   beyond = [D[di]["cls"] for (di, jj) in inexact if jj is None]
   if closed:
@@ -859,6 +907,24 @@ def cases_for (side, ii, inst, group, quick):
   return out
 
 
+def reset_cases (side, insts, quick):
+  """The corruptions that make a receiver give the connection up (foreign version, length < 8, unknown
+  type), each followed by a peer that has reset the connection behind those bytes: shutdown() raises
+  ENOTCONN, recv() raises ECONNRESET once the queued bytes are read, send() fails, close() raises."""
+  out = []
+  envs = ("reset", "reset+close-raises") if quick else tuple(sorted(PEER_FAULTS))
+  for ii, inst in enumerate(insts):
+    if inst.big: continue
+    vals = [("none", 0)] + [("version", v) for v in VERSIONS] + [("hdr.length", v) for v in range(8)] + [("type", 22), ("type", 0xff)]
+    for (f, v) in vals:
+      for pos in ("first", "before", "between", "after"):
+        for glue in (True, False):
+          if quick and not glue and pos != "between": continue
+          for e in envs:
+            out.append(dict(side=side, inst=ii, name=inst.name, field=f, val=v, pos=pos, glue=glue, eof=False, env=e))
+  return out
+
+
 HS_TYPES = dict(ctl=("HELLO", "FEATURES_REPLY", "BARRIER_REPLY"),
                 sw=("HELLO", "FEATURES_REQUEST", "SET_CONFIG", "BARRIER_REQUEST"))
 XID_MASKS = (1, 0x80000000, 0xffffffff)
@@ -927,6 +993,8 @@ def run (cfg):
         cases.extend(cases_for(side, ii, inst, group, quick))
     if not cfg.only or cfg.only in (side, "hs"):
       cases.extend(hs_cases(side, insts, quick))
+    if not cfg.only or cfg.only in (side, "reset"):
+      cases.extend(reset_cases(side, insts, quick))
   # round-robin slices: every slice gets the same mix of cheap and expensive cases
   for r in pmap(_worker, split(cases, cfg.workers * 6), cfg.workers, seed=cfg.seed):
     rep.merge(r)
@@ -940,7 +1008,11 @@ def run (cfg):
               "separate recvs, with two sibling connections exchanging valid messages in the same select rounds; plus, for every "
               "message of the handshake itself (controller: HELLO, FEATURES_REPLY, BARRIER_REPLY; switch: HELLO, FEATURES_REQUEST, "
               "SET_CONFIG, BARRIER_REQUEST) after its valid prefix: xid xor {1, 2^31, 2^32-1}, version, every header length "
-              "0..len+8, every type byte, and the environment faults no-nexus-for-dpid and EPIPE on the n-th send (n = 0..6)%s. distinct = "
+              "0..len+8, every type byte, and the environment faults no-nexus-for-dpid and EPIPE on the n-th send (n = 0..6); plus, "
+              "for every instance x {unmodified, version, header length 0..7, type 22/0xff} x position x chunking: the peer resets "
+              "the connection behind the chunk with the corrupted message (fault sets reset, reset+close-raises; thorough also "
+              "shutdown-enotconn, recv-reset, close-raises: shutdown -> ENOTCONN, recv -> ECONNRESET after the queued bytes, "
+              "send -> ECONNRESET, close -> raises)%s. distinct = "
               "(side, message class, field class, position, chunking, deliveries/errors/closed/logged exceptions, verdict)"
               % (len(insts), VERSIONS, EMB_VALUES,
                  " (quick tier reductions: the full type sweep 0..255 only at 'between' in one recv, type values 0..23,0x7f,0x80,0xfe,0xff at every "
